@@ -2,47 +2,106 @@
    found by a fresh connection after the command, a boolean decider, and the exact model-vs-implementation comparison. *)
 From AV Require Export Base.ListSet Model.Txn.
 
+(* ------------------------------------------------------------------ reading a migration body *)
+(* `ext`: the caller holds a transaction; autocommit_block then fails its assertion, i.e. the migration raises *)
+Fixpoint autos_raise (xs:list aitem) : bool :=
+  match xs with [] => false | ARaise :: _ => true | AStmt _ :: r => autos_raise r end.
+Fixpoint items_raise (ext:bool) (items:list bitem) : bool :=
+  match items with
+  | [] => false
+  | BRaise :: _ => true
+  | BStmt _ :: r => items_raise ext r
+  | BAuto xs :: r => ext || autos_raise xs || items_raise ext r
+  end.
+(* the body gets as far as entering an autocommit section (which commits the transaction that precedes it) *)
+Fixpoint enters_auto (ext:bool) (items:list bitem) : bool :=
+  match items with
+  | [] => false
+  | BRaise :: _ => false
+  | BStmt _ :: r => enters_auto ext r
+  | BAuto _ :: _ => negb ext
+  end.
+Definition step_raises (ext:bool) (sp:step) : bool := items_raise ext (s_body sp) || s_cb_raises sp.
+
+(* the statements of a body that returns *)
+Definition item_stmts (it:bitem) : list stmt :=
+  match it with
+  | BStmt x => [x]
+  | BAuto xs => flat_map (fun a => match a with AStmt x => [x] | ARaise => [] end) xs
+  | BRaise => []
+  end.
+Definition body_stmts (items:list bitem) : list stmt := flat_map item_stmts items.
+
 (* what the completed migrations imply *)
-Definition body_effs (sp:step) (l:list N) : list N := fold_left (fun l x => apply_eff (stmt_eff x) l) (s_body sp) l.
+Definition body_effs (sp:step) (l:list N) : list N :=
+  fold_left (fun l x => apply_eff (stmt_eff x) l) (body_stmts (s_body sp)) l.
 Definition ver_rows (sp:step) (l:list N) : list N := fold_left (fun l v => apply_vop v l) (s_ver sp) l.
 Definition effs_after (steps:list step) (l:list N) : list N := fold_left (fun l sp => body_effs sp l) steps l.
 Definition rows_after (steps:list step) (l:list N) : list N := fold_left (fun l sp => ver_rows sp l) steps l.
 
-(* the failure position is real: it names an existing step and a point of its body (or its callback) *)
-Definition valid_fpos (sp:step) (p:fpos) : bool :=
-  match p with FBody j => Nat.leb j (length (s_body sp)) | FCallback => true end.
-Fixpoint fidx (steps:list step) (fail:option (nat*fpos)) : option nat :=     (* index of the failing migration *)
-  match steps, fail with
-  | sp :: _, Some (O, p) => if valid_fpos sp p then Some O else None
-  | _ :: r, Some (S n, p) => option_map S (fidx r (Some (n, p)))
-  | _, _ => None
+(* index of the failing migration *)
+Fixpoint fidx (ext:bool) (steps:list step) : option nat :=
+  match steps with
+  | [] => None
+  | sp :: r => if step_raises ext sp then Some O else option_map S (fidx ext r)
   end.
-Definition fail_index (i:input) : option nat := fidx (i_steps i) (i_fail i).
+Definition fail_index (i:input) : option nat := fidx (i_external i) (i_steps i).
 
 (* one transaction encloses the whole run: the caller's, or the one env.py's begin_transaction() opens *)
 Definition one_txn (i:input) : bool := i_external i || (i_tddl i && negb (i_per_mig i)).
 
-(* number of migrations of the run whose function returned and whose transaction committed *)
+(* With one enclosing transaction opened by Alembic, an autocommit section commits it (documented: "the database
+   transaction preceding the block is unconditionally committed"): everything up to the migration that entered the
+   section is then durable and recorded.  Index of the last migration, up to the failing one, that entered one. *)
+Fixpoint last_autocommit (steps:list step) (idx acc:nat) : nat :=
+  match steps with
+  | [] => acc
+  | sp :: r => let acc' := if enters_auto false (s_body sp) then idx else acc in
+               if step_raises false sp then acc' else last_autocommit r (S idx) acc'
+  end.
+
+(* number of migrations of the run whose function returned and whose bookkeeping was committed *)
 Definition committed_count (i:input) : nat :=
   match fail_index i with
   | None => length (i_steps i)
-  | Some k => if one_txn i then O else k
+  | Some k => if i_external i then O
+              else if i_tddl i && negb (i_per_mig i) then last_autocommit (i_steps i) O O
+              else k
+  end.
+
+(* no autocommit section committed part of a migration that was not recorded: with one transaction per migration the
+   failing migration entered none, with one enclosing transaction no migration up to the failing one did *)
+Fixpoint none_enters (steps:list step) : bool :=       (* up to and including the first raising step *)
+  match steps with
+  | [] => true
+  | sp :: r => negb (enters_auto false (s_body sp)) && (step_raises false sp || none_enters r)
+  end.
+Definition no_partial_commit (i:input) : bool :=
+  match fail_index i with
+  | None => true
+  | Some k => if i_external i then true
+              else if i_tddl i && negb (i_per_mig i) then none_enters (i_steps i)
+              else match nth_error (i_steps i) k with Some sp => negb (enters_auto false (s_body sp)) | None => true end
   end.
 
 Definition C04_holds (i:input) (o:output) : Prop :=
   let c := committed_count i in
   let done := firstn c (i_steps i) in
   let d0 := i_db0 i in
-  (* the command raises iff a migration raised *)
+  (* the command raises iff a migration raised (whatever the class of the exception) *)
   (o_raised o = true <-> fail_index i <> None) /\
+  (* never more than the migrations before the failing one *)
+  (forall k, fail_index i = Some k -> c <= k) /\
   (* version rows == what the bookkeeping of exactly the committed migrations makes of the initial rows: the failed
-     migration is neither named (upgrade) nor dropped (downgrade); with one enclosing transaction nothing is recorded,
-     otherwise exactly the completed migrations are *)
+     migration is neither named (upgrade) nor dropped (downgrade) — also when it used an autocommit section before it
+     failed; with one enclosing transaction nothing after the last autocommit section is recorded, otherwise exactly
+     the completed migrations are *)
   (forall x, In x (vrows (o_db o)) <-> In x (rows_after done (vrows d0))) /\
-  (* with real transactional DDL the schema is the one implied by the version rows: exactly as before the command
-     with one enclosing transaction, exactly the completed migrations otherwise — the failed one leaves no trace;
-     the version table itself exists afterwards iff it did before or a migration committed *)
-  (i_kind i = TxDDL ->
+  (* with real transactional DDL, and no autocommit section having committed part of an unrecorded migration, the schema
+     is the one implied by the version rows: exactly as before the command with one enclosing transaction, exactly the
+     completed migrations otherwise — the failed one leaves no trace; the version table itself exists afterwards iff it
+     did before or a migration committed *)
+  (i_kind i = TxDDL -> no_partial_commit i = true ->
      (forall x, In x (effs (o_db o)) <-> In x (effs_after done (effs d0))) /\
      (i_steps i <> [] -> vt (o_db o) = (vt d0 || Nat.ltb 0 c))).
 
@@ -55,8 +114,9 @@ Definition check_C04 (i:input) (o:output) : bool :=
   let done := firstn c (i_steps i) in
   let d0 := i_db0 i in
   Bool.eqb (o_raised o) (is_some (fail_index i)) &&
+  (match fail_index i with Some k => Nat.leb c k | None => true end) &&
   seteqN (vrows (o_db o)) (rows_after done (vrows d0)) &&
-  (negb (kind_eqb (i_kind i) TxDDL) ||
+  (negb (kind_eqb (i_kind i) TxDDL) || negb (no_partial_commit i) ||
    (seteqN (effs (o_db o)) (effs_after done (effs d0)) &&
     (match i_steps i with [] => true | _ => Bool.eqb (vt (o_db o)) (vt d0 || Nat.ltb 0 c) end))).
 
@@ -75,6 +135,6 @@ Definition inclass_C04 (i:input) : bool := consistent i.
 (* the whole database state after a list of completed migrations (used for real transactional DDL) *)
 Definition apply_step (sp:step) (d:dbstate) : dbstate :=
   fold_left (fun d v => apply_act (AVop v) d) (s_ver sp)
-            (fold_left (fun d x => apply_act (AEff (stmt_eff x)) d) (s_body sp) d).
+            (fold_left (fun d x => apply_act (AEff (stmt_eff x)) d) (body_stmts (s_body sp)) d).
 Definition state_after (steps:list step) (d:dbstate) : dbstate := fold_left (fun d sp => apply_step sp d) steps d.
 Definition with_version_table (d:dbstate) : dbstate := mkDb (effs d) true (vrows d).
